@@ -5,6 +5,7 @@ package main
 import (
 	"fmt"
 	"math"
+	"os"
 	"sort"
 	"strconv"
 	"strings"
@@ -448,7 +449,7 @@ func BVBin(op string, a, b *Term, signed bool) *Term {
 		return BVBin("<=", b, a, signed)
 	}
 	// bound-based folding (both operands known non-negative and small)
-	if a.Max >= 0 && b.Max >= 0 {
+	if os.Getenv("NOFOLD") == "" && a.Max >= 0 && b.Max >= 0 {
 		switch op {
 		case "<": // a < b
 			if a.IsConst && a.Max >= b.Max {
